@@ -290,44 +290,7 @@ func checkC06(p *Prog, r *Report) {
 	// ---- R6.4 supersession preserves identity ---------------------------------------------------
 	r.Rule("R6.4", "replacePairRemote carries every field of CandidatePair over to the replacement (id, state, nomination flags, counters, timestamps) except the remote itself; replaceRemoteInPairs puts the replacement into the same checklist slot and index entry, keeps the old priority, retargets the nominated-pair holder and re-points the selection only if that pair was selected.", 4)
 	if f := p.Fn("replacePairRemote"); r.Anchor("replacePairRemote", f != nil) {
-		_, st := p.StructType("CandidatePair")
-		covered := map[string]bool{}
-		walkBody(f, func(n ast.Node) bool {
-			switch x := n.(type) {
-			case *ast.AssignStmt:
-				for i, l := range x.Lhs {
-					if fv := p.FieldOf(l); fv != nil && i < len(x.Rhs) {
-						if rf := p.FieldOf(x.Rhs[i]); rf == fv {
-							covered[fv.Name()] = true
-						}
-					}
-				}
-			case *ast.CallExpr:
-				// atomic.StoreX(&replacement.f, atomic.LoadX(&pair.f)) / replacement.f.Store(pair.f.Load()) / copyAtomicValue(&replacement.f, &pair.f)
-				var fs []*types.Var
-				ast.Inspect(x, func(y ast.Node) bool {
-					if sel, ok := y.(*ast.SelectorExpr); ok {
-						if fv := p.FieldOf(sel); fv != nil && p.FieldName(fv) == "CandidatePair."+fv.Name() {
-							fs = append(fs, fv)
-						}
-					}
-					return true
-				})
-				if len(fs) == 2 && fs[0] == fs[1] {
-					covered[fs[0].Name()] = true
-				}
-				if p.CalleeName(x) == "ice.newCandidatePair" && len(x.Args) == 3 {
-					if p.IsField(x.Args[0], "CandidatePair.Local") {
-						covered["Local"] = true
-					}
-					if p.IsField(x.Args[2], "CandidatePair.iceRoleControlling") {
-						covered["iceRoleControlling"] = true
-					}
-					covered["Remote"] = true // replaced on purpose
-				}
-			}
-			return true
-		})
+		covered, st := p.replacePairCoverage(f)
 		r.Except("R6.4: CandidatePair.priorityOverride / hasPriorityOverride are set by replaceRemoteInPairs through setPriorityOverride(old priority)")
 		var missing []string
 		for i := 0; st != nil && i < st.NumFields(); i++ {
@@ -531,4 +494,49 @@ func (p *Prog) pairIsListed(f *Func, e ast.Expr, depth int) (bool, string) {
 		}
 	}
 	return n > 0, "findPair / addPair / checklist element"
+}
+
+// replacePairCoverage: the fields of CandidatePair that replacePairRemote
+// carries over from the same field of the superseded pair (shared by C06 R6.4
+// and C07 R7.4).
+func (p *Prog) replacePairCoverage(f *Func) (map[string]bool, *types.Struct) {
+	_, st := p.StructType("CandidatePair")
+	covered := map[string]bool{}
+	walkBody(f, func(n ast.Node) bool {
+		switch x := n.(type) {
+		case *ast.AssignStmt:
+			for i, l := range x.Lhs {
+				if fv := p.FieldOf(l); fv != nil && i < len(x.Rhs) {
+					if rf := p.FieldOf(x.Rhs[i]); rf == fv {
+						covered[fv.Name()] = true
+					}
+				}
+			}
+		case *ast.CallExpr:
+			// atomic.StoreX(&replacement.f, atomic.LoadX(&pair.f)) / replacement.f.Store(pair.f.Load()) / copyAtomicValue(&replacement.f, &pair.f)
+			var fs []*types.Var
+			ast.Inspect(x, func(y ast.Node) bool {
+				if sel, ok := y.(*ast.SelectorExpr); ok {
+					if fv := p.FieldOf(sel); fv != nil && p.FieldName(fv) == "CandidatePair."+fv.Name() {
+						fs = append(fs, fv)
+					}
+				}
+				return true
+			})
+			if len(fs) == 2 && fs[0] == fs[1] {
+				covered[fs[0].Name()] = true
+			}
+			if p.CalleeName(x) == "ice.newCandidatePair" && len(x.Args) == 3 {
+				if p.IsField(x.Args[0], "CandidatePair.Local") {
+					covered["Local"] = true
+				}
+				if p.IsField(x.Args[2], "CandidatePair.iceRoleControlling") {
+					covered["iceRoleControlling"] = true
+				}
+				covered["Remote"] = true // replaced on purpose
+			}
+		}
+		return true
+	})
+	return covered, st
 }
